@@ -461,7 +461,7 @@ func editStates(w *World, file string, rng *rand.Rand, sample float64, radius in
 		// replay: enumerate every edit, keep the named one
 		for i, t := range toks {
 			add(append(append([]byte{}, src[:t.S]...), src[t.E:]...), t.S, fmt.Sprintf("del:%d", i))
-			for _, rep := range tokenAlphabet {
+			for _, rep := range *activeAlphabet {
 				if fmt.Sprintf("rep:%d:%q", i, rep) == onlyNote {
 					add(append(append(append([]byte{}, src[:t.S]...), rep...), src[t.E:]...), t.S+len(rep), onlyNote)
 				}
@@ -477,7 +477,7 @@ func editStates(w *World, file string, rng *rand.Rand, sample float64, radius in
 			ns := append(append([]byte{}, src[:t.S]...), src[t.E:]...)
 			add(ns, t.S, fmt.Sprintf("del:%d", i))
 		}
-		for _, rep := range tokenAlphabet {
+		for _, rep := range *activeAlphabet {
 			if rng.Float64() < sample/4 {
 				ns := append(append(append([]byte{}, src[:t.S]...), rep...), src[t.E:]...)
 				add(ns, t.S+len(rep), fmt.Sprintf("rep:%d:%q", i, rep))
